@@ -86,6 +86,8 @@ func c11Context() *plush.Context {
 	ctx.Set("rp", &rp)
 	ctx.Set("rs", []pR{mkR("rs[0]"), mkR("rs[1]")})
 	ctx.Set("rm", map[string]pR{"a": mkR("rm[a]")})
+	ctx.Set("k", mkK("k"))
+	ctx.Set("ks", []pK{mkK("ks[0]"), mkK("ks[1]")})
 	ctx.Set("i0", 0)
 	ctx.Set("i1", 1)
 	ctx.Set("i9", 9)
@@ -110,7 +112,7 @@ type pathCase struct {
 func init() { register("C11", checkC11) }
 
 func checkC11(c *Ctx) error {
-	c.ruleText = "GenPaths.tla: every navigation of up to MaxSteps steps (3 quick, 5 thorough) from four roots (struct, pointer to struct, slice of structs, map of structs) over a graph of three struct types with value and pointer fields, nil pointers, slices, slices of pointers with a nil element, arrays, maps, value- and pointer-receiver methods returning strings, structs, pointers and nil; steps = field (existing / missing / unexported / through nil), index (literal 0..2 and variables, out of range), map key (present / missing, literal and variable), method call (existing / missing); each prefix in three uses (output tag, let binding, loop iterable). TLC checks NavTheorem / FailTheorem (the reference semantics follows the navigation). The harness builds the same graph from real Go types with every leaf spelling its own Go path and compares: completed navigation => exactly that leaf; otherwise an error or empty output, never another element, never a panic. distinct_nontrivial = distinct (path, use) with at least one step."
+	c.ruleText = "GenPaths.tla: every navigation of up to MaxSteps steps (3 quick, 5 thorough) from six roots (struct, pointer to struct, slice of structs, map of structs, the inner struct type and a slice of it, whose Twin() method can be chained on its own result three times) over a graph of three struct types with value and pointer fields, nil pointers, slices, slices of pointers with a nil element, arrays, maps, value- and pointer-receiver methods returning strings, structs, pointers and nil; steps = field (existing / missing / unexported / through nil), index (literal 0..2 and variables, out of range), map key (present / missing, literal and variable), method call (existing / missing); each prefix in three uses (output tag, let binding, loop iterable). TLC checks NavTheorem / FailTheorem (the reference semantics follows the navigation). The harness builds the same graph from real Go types with every leaf spelling its own Go path and compares: completed navigation => exactly that leaf; otherwise an error or empty output, never another element, never a panic. distinct_nontrivial = distinct (path, use) with at least one step."
 	run := func(raw json.RawMessage) { c11Run(c, raw) }
 	if c.ReplayPath != "" {
 		return replayFile(c, run)
